@@ -166,6 +166,63 @@ def r6_key_offset(run, F):
            "exact path first, then relative to the includer's parent directory: %s" % second)
 
 
+def r7_struct_namespace(run, F):
+    """Named LLVM struct types live in the LLVM *context*, which all modules of a compilation share (functions and globals
+    live in the per-module LLVMModule).  A private struct must therefore not be looked up or created under its bare source
+    name: two modules that each declare a private `struct Foo` would share one LLVM type and re-set its body."""
+    from rules import origins
+    d = F.body("alpha::generator::declare")
+    m = hirq.find_match(d, min_arms=3)
+    arm = hirq.arm_for(m, "Declaration::Structure")
+    run.require(arm, "Structure arm not found in generator::declare")
+    body = arm[0]["body"]
+    created = [c for c in hirq.calls(body) if (hirq.callee(c) or "").endswith("LLVMStructCreateNamed")]
+    looked = [c for c in hirq.calls(body) if (hirq.callee(c) or "").endswith("LLVMGetTypeByName")]
+    run.require(len(created) == 1, "Structure arm: expected one LLVMStructCreateNamed (found %d)" % len(created))
+    o = origins.origins(d["hir"], created[0]["a"][1], d.get("params", ()))
+    decorated = any(x[0] == "call" and any(w in x[1] for w in ("format", "push_str", "concat")) for x in o) or \
+        any(x[0] == "lit" and isinstance(x[1], str) and x[1] for x in o)
+    flags_seen = [hirq.short(p).split("::")[-1] for p, _ in hirq.constructs(body) if "DeclarationFlag::" in hirq.short(p)]
+    guarded = "Public" in flags_seen
+    # is the context per module?  Generator::add_module must then create a fresh context
+    am = F.body("alpha::generator::Generator::add_module")
+    fresh_ctx = any((hirq.callee(c) or "").endswith("LLVMContextCreate") for c in hirq.calls(am["hir"]))
+    ok = decorated or guarded or fresh_ctx or not looked
+    run.ob("R7-STRUCT-TYPE-NAMESPACE", "private structs of different modules", ok, F.where(d, created[0]),
+           "struct types are created/looked up in the shared LLVM context under the bare source name (decorated per module: %s, reuse limited "
+           "to pub structs: %s, fresh context per module: %s): same-named private structs of two modules collide" % (decorated, guarded, fresh_ctx))
+
+
+def r8_exported_constant(run, F):
+    """An imported constant must have the value it has in its own module.  The expander copies declarations before any
+    name is resolved, so an exported constant whose initialiser mentions another name is re-evaluated in the importer's
+    scope (a private constant of the same name in the importer is captured; without one the import fails with E402)."""
+    b = F.body("alpha::expander::export")
+    m = hirq.find_match(b, min_arms=4)
+    arm = hirq.arm_for(m, "Declaration::Constant")
+    run.require(arm, "Constant arm not found in expander::export")
+    verbatim = False
+    for p, node in hirq.constructs(arm[0]["body"]):
+        if norm_path(p) == DECL + "::Constant" and node.get("k") == "Struct":
+            for f in node["fields"]:
+                if f["name"] == "value":
+                    e = hirq.unwrap_trivial(f["e"])
+                    verbatim = e.get("k") == "MethodCall" and e.get("name") == "clone" and hirq.local_name_of(hirq.unwrap_trivial(e["recv"])) == "value"
+    # are names resolved before export?  scoper::analyze would have to run before expander::expand
+    order = []
+    for crate in (F.lib, F.bin):
+        for bb in crate.bodies.values():
+            if "hir" not in bb:
+                continue
+            cs = [(hirq.callee(c), c["l"]) for c in hirq.calls(bb["hir"]) if hirq.callee(c) in ("alpha::expander::expand", "alpha::expander::expand_one", "alpha::scoper::analyze")]
+            if len(set(c for c, _ in cs)) >= 2:
+                order.append((bb["npath"], [c.split("::")[-2] for c, _ in sorted(cs, key=lambda x: x[1])]))
+    resolved_first = bool(order) and all(o[1][0] == "scoper" for o in order)
+    run.ob("R8-EXPORTED-CONSTANT-CLOSED", "Constant.value", (not verbatim) or resolved_first, F.where(b, arm[0]),
+           "the initialiser of an exported constant is copied verbatim (%s) before names are resolved (drivers: %s): it is evaluated "
+           "again in the importing module's scope" % (verbatim, order))
+
+
 def check(run):
     F = run.facts("B")
     r1_export(run, F)
@@ -173,3 +230,5 @@ def check(run):
     r3_compiler_reset(run, F)
     c03.r1_reset(run, F)
     r6_key_offset(run, F)
+    r7_struct_namespace(run, F)
+    r8_exported_constant(run, F)
